@@ -2176,7 +2176,7 @@ def c19_cases(tier, seed):
         c = script_case(cmds, mode="emacs", chunks=chunks, cols=rng.choice([80, 20]), prompt="> ", timeout="none", reads=1,
                         hints=["hello there"] if pre[0] == "h" else None)
         c.meta["printers"] = 1
-        c.meta["prints"] = {at: [(0, text)]}
+        c.meta["prints"] = {at - 1: [(0, text)]}       # handed over once the command at - 1 has been carried out
         cases.append(c)
     # printer lifetimes: a printer is created and dropped before the first read, which runs with no printer alive; the
     # session's printers are created only after it and print during the second read
@@ -2444,6 +2444,24 @@ def c19_corr(res, exe, driver, tier, seed, tmp):
     out = run_tty_cases(res, exe, driver, cases, tmp, "printer")
     width = vt.Widths(ud_tables())
     stats = eval_c19(res, out, "printer", width)
+    # the edited text is unaffected: the same script WITHOUT its messages goes through the same states and returns the same lines
+    import copy
+    withm = [(c, impl) for (c, impl, model, raw) in out if c.meta.get("prints") and not c.meta.get("bursts") and not c.meta.get("no_model")
+             and not c.meta.get("events")]
+    twins = []
+    for c, impl in withm:
+        t = copy.copy(c)
+        t.meta = dict(c.meta, prints={})
+        twins.append(t)
+    tout = run_tty_cases(res, exe, None, twins, tmp, "printer-twin")
+    res.evaluations -= len(twins)
+    for (c, impl), (t, timpl, _, _) in zip(withm, tout):
+        a, b = p_tty.strip_w(impl), p_tty.strip_w(timpl)
+        if a != b:
+            res.oracle_failures.append({"stream": "printer", "case": c.model_line(c.chunks), "keys": c.keys,
+                                        "prints": {str(k): v for k, v in c.meta["prints"].items()},
+                                        "why": "the messages changed what the keys do: with them %s, without them %s" % (" ## ".join(a)[:600], " ## ".join(b)[:600])})
+    stats["twins_without_messages"] = len(twins)
     pairs = c19_pair_cases(tier, seed)
     flat = [c for pr in pairs for c in pr]
     pout = run_tty_cases(res, exe, driver, flat, tmp, "printer-subloop")
@@ -2457,7 +2475,8 @@ def c19_corr(res, exe, driver, tier, seed, tmp):
                 "written is compared with the model (Editor.external_print + drain_prints: the message handling of the main loop). "
                 "(ii) an independent emulator interprets everything written: every message must be on the terminal exactly once and "
                 "whole, messages of one thread in the order sent, each print call must have returned Ok, and each read must return "
-                "exactly the text that was being edited. printer-subloop: pairs of one script with and without a message handed "
+                "exactly the text that was being edited; every script with messages is run again WITHOUT them and must go through the same "
+                "states (text, cursor, mode before each key) and return the same lines. printer-subloop: pairs of one script with and without a message handed "
                 "over INSIDE an incremental search or a circular completion (also compared with the model, whose raw reads step "
                 "over a message and leave it in the stream for the main loop): after every chunk the row the cursor is on shows the same text and column in both "
                 "runs, both reads return the same line, and the message is on the terminal exactly once.")
